@@ -1542,6 +1542,7 @@ class Skel:
         self.node, self.stop_at, self.result_names = node, stop_at, result_names
         self.tmp = 0
         self.depth = 0
+        self.join = 0        # > 0 while translating a branch whose value is joined with mret: a return there cannot be rendered
 
     def fresh(self):
         self.tmp += 1
@@ -1566,11 +1567,23 @@ class Skel:
                 return [], "vnone", "V"
             if isinstance(e.value, int) and not isinstance(e.value, bool):
                 return [], "(%d)" % e.value, "Z"
+            if isinstance(e.value, bool):
+                return [], ("vtrue" if e.value else "vfalse"), "V"
+            if isinstance(e.value, (str, float)):
+                # a literal outside the integer subset: one uninterpreted (logged) operation without arguments, named by its text
+                v = self.fresh()
+                return [(v, 'call oracle "expr:%s" []' % ast.unparse(e).replace('"', "'"))], v, "V"
             raise Unsupported("constant %r" % (e.value,))
         if isinstance(e, ast.Name):
             if e.id not in env:
                 raise Unsupported("unknown name %s" % e.id)
             return [], cname(e.id), env[e.id]
+        if isinstance(e, ast.UnaryOp) and isinstance(e.op, ast.USub):
+            b, c, t = self.expr(e.operand, env)
+            if t == "Z":
+                return b, "(- %s)" % c, "Z"
+            v = self.fresh()
+            return b + [(v, 'call oracle "op:neg" [%s]' % self.toV(c, t))], v, "V"
         if isinstance(e, ast.Attribute):
             root = e
             while isinstance(root, ast.Attribute):
@@ -1630,7 +1643,23 @@ class Skel:
             b2, c2, t2 = self.expr(e.slice, env)
             v = self.fresh()
             return b1 + b2 + [(v, 'call oracle "getitem" [%s; %s]' % (self.toV(c1, t1), self.toV(c2, t2)))], v, "V"
-        if isinstance(e, (ast.ListComp, ast.JoinedStr, ast.List, ast.Dict)) or (isinstance(e, ast.Constant) and isinstance(e.value, str)) \
+        if isinstance(e, ast.BoolOp) and len(e.values) == 2:
+            # a and b / a or b on conditions: b is evaluated (its calls are made) only when a does not decide
+            b1, c1, t1 = self.expr(e.values[0], env)
+            b2, c2, t2 = self.expr(e.values[1], env)
+            if t1 == "V":
+                c1, t1 = "(truthy %s)" % c1, "bool"
+            if t2 == "V":
+                c2, t2 = "(truthy %s)" % c2, "bool"
+            if t1 != "bool" or t2 != "bool":
+                raise Unsupported("boolean operator on %s, %s" % (t1, t2))
+            v = self.fresh()
+            second = self.wrap(b2, "mret %s" % c2)
+            if isinstance(e.op, ast.And):
+                return b1 + [(v, "(if %s then\n  %s\n  else mret false)" % (c1, second))], v, "bool"
+            return b1 + [(v, "(if %s then mret true else\n  %s)" % (c1, second))], v, "bool"
+        if isinstance(e, ast.Subscript) and isinstance(e.slice, (ast.Slice, ast.Tuple)) or \
+                isinstance(e, (ast.ListComp, ast.DictComp, ast.SetComp, ast.GeneratorExp, ast.JoinedStr, ast.List, ast.Dict)) \
                 or (isinstance(e, ast.Call) and (any(isinstance(a_, ast.Starred) for a_ in e.args)
                                                  or any(isinstance(n_, (ast.ListComp, ast.IfExp)) for a_ in e.args for n_ in ast.walk(a_)))):
             # an expression outside the subset whose value only flows on: one uninterpreted (logged) operation on its free variables
@@ -1654,7 +1683,7 @@ class Skel:
             argv = [self.toV(a[1], a[2]) for a in args]
             if isinstance(e.func, ast.Attribute):
                 root = e.func
-                while isinstance(root, ast.Attribute):
+                while isinstance(root, (ast.Attribute, ast.Subscript)):
                     root = root.value
                 if isinstance(root, ast.Name) and root.id in env:
                     # a method of a local object:  obj.path.method(args)
@@ -1688,7 +1717,12 @@ class Skel:
                         for x in t.elts:
                             add(x.id)
                     else:
-                        raise Unsupported("assignment target %s" % ast.unparse(t))
+                        r_ = t
+                        while isinstance(r_, (ast.Attribute, ast.Subscript)):
+                            r_ = r_.value
+                        if not isinstance(r_, ast.Name):
+                            raise Unsupported("assignment target %s" % ast.unparse(t))
+                        add(r_.id)
             elif isinstance(s, ast.If):
                 for n in self.assigned(s.body) + self.assigned(s.orelse):
                     add(n)
@@ -1734,13 +1768,15 @@ class Skel:
             if brk is None:
                 raise Unsupported("break outside a loop")
             return brk(env)
-        if isinstance(s, ast.Return) and self.stop_at is None and brk is None and s.value is not None and self.depth == 0:
+        if isinstance(s, ast.Return) and self.stop_at is None and brk is None and s.value is not None and self.depth == 0 and self.join == 0:
             b, c, t = self.expr(s.value, env)
             return self.wrap(b, "mret %s" % self.toV(c, t))
         if isinstance(s, ast.Raise) and s.exc is None:
             raise Unsupported("bare raise outside an except clause")
         if isinstance(s, ast.Assert):
             b, c, t = self.expr(s.test, env)
+            if t == "V":
+                c, t = "(truthy %s)" % c, "bool"
             if t != "bool":
                 raise Unsupported("assert on %s" % t)
             return self.wrap(b, 'if %s then\n  %s\n  else mraise "AssertionError"%%string' % (c, nxt(env)))
@@ -1751,6 +1787,9 @@ class Skel:
             b, c, t = self.expr(s.value, env)
             if isinstance(tgt, ast.Name):
                 env2 = dict(env)
+                if env.get(tgt.id) == "V" and t == "Z":
+                    # a name that already holds an opaque value keeps that type (its value may be joined with another branch)
+                    c, t = self.toV(c, t), "V"
                 env2[tgt.id] = t
                 return self.wrap(b, "let %s := %s in\n  %s" % (cname(tgt.id), c, nxt(env2)))
             if isinstance(tgt, ast.Tuple) and all(isinstance(x, ast.Name) for x in tgt.elts) and t == "V":
@@ -1770,6 +1809,23 @@ class Skel:
             if isinstance(tgt, ast.Attribute) and isinstance(tgt.value, ast.Name) and env.get(tgt.value.id) == "V":
                 o = cname(tgt.value.id)
                 return self.wrap(b, '%s <<- call oracle "setattr:%s" [%s; %s] ;;\n  %s' % (o, tgt.attr, o, self.toV(c, t), nxt(env)))
+            rt = tgt
+            while isinstance(rt, (ast.Attribute, ast.Subscript)):
+                rt = rt.value
+            if isinstance(tgt, (ast.Attribute, ast.Subscript)) and isinstance(rt, ast.Name) and env.get(rt.id) == "V" \
+                    and not any(isinstance(n, (ast.Slice, ast.Call)) for n in ast.walk(tgt)):
+                # root.path[i].attr = v  (a store through a path): one logged call  "store:<path>" [root; <the other variables of the
+                # path, in order of appearance>; v]  returning the updated root (the root is referenced through this name only)
+                o = cname(rt.id)
+                others, bo = [], []
+                for n in ast.walk(tgt):
+                    if isinstance(n, ast.Name) and n.id != rt.id:
+                        if n.id not in env:
+                            raise Unsupported("unknown name %s" % n.id)
+                        if n.id not in [x for x, _ in others]:
+                            others.append((n.id, self.toV(cname(n.id), env[n.id])))
+                return self.wrap(b, '%s <<- call oracle "store:%s" [%s] ;;\n  %s' % (
+                    o, ast.unparse(tgt), "; ".join([o] + [c_ for _, c_ in others] + [self.toV(c, t)]), nxt(env)))
             raise Unsupported("assignment %s" % ast.unparse(s))
         if isinstance(s, ast.If):
             b, c, t = self.expr(s.test, env)
@@ -1779,6 +1835,9 @@ class Skel:
                 raise Unsupported("condition of type %s" % t)
             if self.ends_with_break(s.body) and not s.orelse:
                 return self.wrap(b, "if %s then\n  %s\n  else\n  %s" % (c, self.block(s.body, env, self.no_fall, brk), nxt(env)))
+            if s.body and isinstance(s.body[-1], ast.Return) and not s.orelse and brk is None and self.depth == 0 and self.join == 0:
+                # if c: ...; return v   - the function ends there; everything after the if runs only when c is false
+                return self.wrap(b, "if %s then\n  %s\n  else\n  %s" % (c, self.block(s.body, env, self.no_fall, None), nxt(env)))
             if any(isinstance(n, ast.Break) for n in ast.walk(s)):
                 # a break somewhere inside: both branches continue with the rest of the block (which is duplicated)
                 if brk is None:
@@ -1789,8 +1848,12 @@ class Skel:
             names = [n for n in self.assigned(s.body + s.orelse) if n in env]
             t_, p_ = self.tup(names)
             kk = lambda e2: "mret %s" % t_   # noqa: E731
-            return self.wrap(b, "%s <<- (if %s then\n  %s\n  else\n  %s) ;;\n  %s" % (
-                p_, c, self.block(s.body, env, kk, None), self.block(s.orelse, env, kk, None), nxt(env)))
+            self.join += 1
+            try:
+                br1, br2 = self.block(s.body, env, kk, None), self.block(s.orelse, env, kk, None)
+            finally:
+                self.join -= 1
+            return self.wrap(b, "%s <<- (if %s then\n  %s\n  else\n  %s) ;;\n  %s" % (p_, c, br1, br2, nxt(env)))
         if isinstance(s, ast.For) and not s.orelse and not (isinstance(s.iter, ast.Call) and ast.unparse(s.iter.func) == "range") \
                 and not any(isinstance(n, (ast.Break, ast.Continue)) for n in ast.walk(s)):
             # for x in <opaque iterable> (no break): the iterable is evaluated (a logged call if it is one), then the body runs
@@ -1945,7 +2008,20 @@ SKEL_TARGETS = {"main_loop": ("main_loop.py", "fit_stacked_data", "bayesian_ic",
                 "gl_retrieve": ("graphical_lasso.py", "_retrieve_optimization_results", None, []),
                 "gl_update": ("graphical_lasso.py", "_update_cluster_covariances", None, []),
                 # the result assembly of the main loop (what follows the closing of the task pool)
-                "main_loop_suffix": ("main_loop.py", "fit_stacked_data", ("from", "bayesian_ic", ["current_model_state", "stacked_training_data", "num_data_points"]), [])}
+                "main_loop_suffix": ("main_loop.py", "fit_stacked_data", ("from", "bayesian_ic", ["current_model_state", "stacked_training_data", "num_data_points"]), []),
+                # the phases of one round, as compositions of their helpers
+                "cm_repopulate": ("cluster_maintenance.py", "repopulate_empty_clusters", None, []),
+                "cm_update_all": ("cluster_maintenance.py", "update_all_cluster_statistics", None, []),
+                "la_predict": ("cluster_label_assignment.py", "predict_cluster_labels", None, []),
+                "la_initial": ("cluster_label_assignment.py", "build_initial_clusters", None, []),
+                "ll_point": ("likelihood.py", "point_log_likelihood", None, []),
+                "ll_table": ("likelihood.py", "all_points_all_clusters_log_likelihood", None, []),
+                "gl_stats": ("graphical_lasso.py", "_update_cluster_statistics", None, []),
+                # the remaining glue: splitting of a joint result, the ADMM entry point and X step, the worker pool
+                "front_split": ("front_end.py", "_split_combined_result", None, []),
+                "admm_front": ("admm/front_end.py", "admm_optimize_theta", None, []),
+                "admm_x": ("admm/solver.py", "admm_update_x", None, []),
+                "pool": ("main_loop.py", "_init_task_pool", None, [])}
 
 
 def translate_skeleton(mod, src_root):
